@@ -60,8 +60,17 @@ SAMPLE_DIR = os.path.join(REPO_DIR, 'tests', 'test_choreo')
 
 # ------------------------------------------------------------------------------------------------ strategies
 
+# A small shared vocabulary so that strings of different events / scenes collide in a string pool: case variants of one
+# word, prefixes / suffixes of each other, the empty string, latin-1 letters with case (and 'ß', whose casefold is 'ss').
+SHARED_WORDS = ['Alyx', 'alyx', 'ALYX', 'aLyx', 'audio', 'Audio', 'AUDIO', 'aud', 'audio2', 'dio', '', 'a', 'A',
+                '\xe9t\xe9', '\xc9t\xe9', '\xc9T\xc9', 'stra\xdfe', 'strasse', 'STRASSE', 'Alyx ', ' alyx']
+
+
 def s_str(mode):
-    return st.text(POOL_ALPHA if mode in ('q', 'img') else TEXT_ALPHA, max_size=5)
+    free = st.text(POOL_ALPHA if mode in ('q', 'img') else TEXT_ALPHA, max_size=5)
+    if mode in ('img', 'bin', 'q'):
+        return st.one_of(st.sampled_from(SHARED_WORDS), free)
+    return st.one_of(free, free, st.sampled_from(SHARED_WORDS))
 
 
 def s_time(mode):
@@ -144,8 +153,8 @@ def s_track(mode):
 
 
 def s_tags(value, max_size=3, extra=None):
-    item = st.tuples(st.text('abT_ 1"', max_size=4), value) if extra is None else \
-        st.tuples(st.text('abT_ 1"', max_size=4), value, extra)
+    name = st.one_of(st.text('abT_ 1"', max_size=4), st.sampled_from(SHARED_WORDS))
+    item = st.tuples(name, value) if extra is None else st.tuples(name, value, extra)
     return st.one_of(st.just([]), st.lists(item.map(list), max_size=max_size))
 
 
@@ -530,6 +539,34 @@ def all_events(d):
                 yield e
 
 
+def pooled_strings(d):
+    """Every string of a scene descriptor that the binary form stores through the string pool."""
+    out = set()
+    for a in d['actors']:
+        out.add(a['name'])
+        for c in a['channels']:
+            out.add(c['name'])
+    for e in all_events(d):
+        out.add(e['name'])
+        out.update(e['params'])
+        if e['tag']:
+            out.update(e['tag'])
+        for key in ('rel_tags', 'timing_tags', 'abs_play', 'abs_shift'):
+            out.update(t[0] for t in e[key])
+        out.update(t['name'] for t in e['flex'])
+        if e['kind'] == 'speak':
+            out.add(e['cc_token'])
+    return out
+
+
+def case_variants(a, b):
+    """Some string of `a` and some string of `b` are different spellings of the same folded text."""
+    folded = {}
+    for x in a:
+        folded.setdefault(x.casefold(), set()).add(x)
+    return any(y.casefold() in folded and folded[y.casefold()] - {y} for y in b)
+
+
 def has_flex(d):
     return 'file' not in d and any(e['flex'] for e in all_events(d))
 
@@ -777,6 +814,9 @@ def exec_binary(desc, ctx):
     if 'file' in desc:
         return exec_binary_file(desc, ctx)
     classify(desc, ctx)
+    strs = pooled_strings(desc)
+    if case_variants(strs, strs):
+        ctx.label('binary:case_variant_strings')
     scene = build_or_fail(desc, ctx)
     if scene is None:
         return
@@ -935,7 +975,9 @@ def strategy_image(tier):
         'version': st.sampled_from([2, 3]),
         'as_dict': st.booleans(),
         'mode': st.sampled_from(['reexport', 'mixed', 'two_pools']),
-        'entries': st.lists(entry, max_size=4, unique_by=lambda e: crc_of(e['filename'])),
+        'entries': st.one_of(st.lists(entry, max_size=1),
+                             st.lists(entry, min_size=2, max_size=5, unique_by=lambda e: crc_of(e['filename'])),
+                             st.lists(entry, min_size=2, max_size=5, unique_by=lambda e: crc_of(e['filename']))),
     })
 
 
@@ -1015,6 +1057,11 @@ def exec_image(desc, ctx):
               'arg:dict' if desc['as_dict'] else 'arg:iter')
     for e in ents:
         classify(e['scene'], ctx, prefix='')
+    pools = [pooled_strings(e['scene']) for e in ents]
+    if any(case_variants(pools[i], pools[j]) for i in range(len(pools)) for j in range(len(pools)) if i != j):
+        ctx.label('image:case_variant_strings_across_scenes')
+    if any(case_variants(p, p) for p in pools):
+        ctx.label('image:case_variant_strings_in_scene')
     ctx.nontrivial(len(ents) >= 1 and any(True for e in ents for _ in all_events(e['scene'])))
     built = []
     for e in ents:
@@ -1177,12 +1224,12 @@ SUBS = [
         must_hit=COMMON_HIT + ('edge', 'scalesettings', 'file:sample.vcd')),
     Sub('choreo_binary', exec_binary, strategy=strategy_binary, fixed=fixed_binary, quick=800, thorough=8000, floor=100,
         quick_shards=16,
-        must_hit=COMMON_HIT + ('flex', 'flex:dir', 'file:sample.vcd', 'file:test_save_binary.bvcd')),
+        must_hit=COMMON_HIT + ('flex', 'flex:dir', 'binary:case_variant_strings', 'file:sample.vcd', 'file:test_save_binary.bvcd')),
     Sub('choreo_cross', exec_cross, strategy=strategy_cross, quick=600, thorough=6000, floor=100, quick_shards=16,
         must_hit=COMMON_HIT),
     Sub('choreo_image', exec_image_any, strategy=strategy_image, fixed=fixed_image, quick=160, thorough=2000, floor=40,
         quick_shards=16,
-        must_hit=('version:2', 'version:3', 'mode:reexport', 'mode:mixed', 'mode:two_pools', 'entries:2+', 'arg:dict', 'arg:iter', 'input_unsorted', 'ev:speak', 'lzma')),
+        must_hit=('version:2', 'version:3', 'mode:reexport', 'mode:mixed', 'mode:two_pools', 'entries:2+', 'image:case_variant_strings_across_scenes', 'arg:dict', 'arg:iter', 'input_unsorted', 'ev:speak', 'lzma')),
 ]
 
 
